@@ -42,6 +42,10 @@
 (*                   attribute of the module before it (no AttributeError  *)
 (*                   on a lena module), whatever was imported first        *)
 (*   ImportsSucceed  no import statement / import-time reference fails     *)
+(*   LocalsResolve   no called function can read a local name that is      *)
+(*                   unbound on that path (UnboundLocalError is a          *)
+(*                   NameError): names deleted by `except .. as n` / del,  *)
+(*                   names whose only assignment is what raised            *)
 (* Declarative part: Closure (reachability in the static import graph) and *)
 (* StaticNames; LoadedIsClosure and NamesAreStatic tie the machine to them.*)
 (***************************************************************************)
@@ -55,6 +59,7 @@ CONSTANTS
     All,            \* module -> set of advertised names, for modules that assign __all__
     DynDefs,        \* [Modules -> names functions may create with `global`]
     Funcs, FMod, FImports, FLoads, FChains,
+    FlowFuncs, FNodes, FSucc, FSeeds,   \* binding events of local names: graph per function (see below)
     Builtins, Implicit, PkgImplicit
 (* The check does not assign these constants in a .cfg: it writes a module that consists of the  *)
 (* definitions  Modules == {...}, Body == ... extracted from the tree, followed by the text of   *)
@@ -250,6 +255,65 @@ AllAdvertised == MissingAll = {}
 
 BadLoads(f) == {ld \in FLoads[f] : ~NameBound(FMod[f], ld.name)}
 BadChains(f) == {c \in FChains[f] : NameBound(FMod[f], c.root) /\ ~ChainRes(FMod[f], c).ok}
+(***************************************************************************)
+(* Local names (LocalsResolve).  For the functions in FlowFuncs the        *)
+(* extractor supplies the control-flow graph of the binding events of      *)
+(* their local names: FNodes[f][x] = [op, name, line] with op one of       *)
+(* "bind", "kill" (del n; the end of `except E as n`), "load", "nop";      *)
+(* FSucc[f][x] = successors of x on any syntactic path.                    *)
+(* (a) a load of n is dead if it can be reached from a kill of n without   *)
+(*     passing a bind of n;                                                *)
+(* (b) FSeeds[f] = [t, h, last, name]: h..last are the nodes of a handler  *)
+(*     of the try statement entered at t whose first statement is a plain  *)
+(*     assignment to name.  If no bind of name can reach t, the handler    *)
+(*     runs with name unbound whenever that statement is what raised: a    *)
+(*     load on any path inside the handler is dead, and so is one in the   *)
+(*     straight-line code after it (followed only while there is exactly   *)
+(*     one successor: nothing is assumed about conditions evaluated after  *)
+(*     the handler, which may be correlated with it).                      *)
+(***************************************************************************)
+NodeIds(f) == 1..Len(FNodes[f])
+IsEv(f, x, op, n) == FNodes[f][x].op = op /\ FNodes[f][x].name = n
+Rebinds(f, x, n) == FNodes[f][x].name = n /\ FNodes[f][x].op \in {"bind", "kill"}
+SuccOf(f, X) == UNION {FSucc[f][x] : x \in X}
+
+\* nodes after which n is unbound on some path, starting from the kills of n
+RECURSIVE UnboundAfter(_, _, _)
+UnboundAfter(f, n, X) ==
+    LET Y == X \cup {y \in SuccOf(f, X) : ~Rebinds(f, y, n)}
+    IN  IF Y = X THEN X ELSE UnboundAfter(f, n, Y)
+KillNames(f) == {FNodes[f][x].name : x \in {y \in NodeIds(f) : FNodes[f][y].op = "kill"}}
+DeadByKill(f) ==
+    UNION {{[name |-> n, line |-> FNodes[f][y].line] :
+               y \in {z \in SuccOf(f, UnboundAfter(f, n, {x \in NodeIds(f) : IsEv(f, x, "kill", n)})) :
+                          IsEv(f, z, "load", n)}} : n \in KillNames(f)}
+
+RECURSIVE ReachFrom(_, _)
+ReachFrom(f, X) == LET Y == X \cup SuccOf(f, X) IN IF Y = X THEN X ELSE ReachFrom(f, Y)
+BindReaches(f, n, t) == t \in SuccOf(f, ReachFrom(f, {x \in NodeIds(f) : IsEv(f, x, "bind", n)}))
+\* straight-line continuation of x: nodes passed while there is exactly one successor and n is not bound
+RECURSIVE Chain(_, _, _, _)
+Chain(f, n, x, seen) ==
+    IF x \in seen \/ IsEv(f, x, "bind", n) THEN {}
+    ELSE {x} \cup (IF Cardinality(FSucc[f][x]) = 1
+                   THEN Chain(f, n, CHOOSE y \in FSucc[f][x] : TRUE, seen \cup {x}) ELSE {})
+InH(s, x) == x >= s.h /\ x <= s.last
+\* nodes of the handler after which the name is still unbound, on any path inside the handler
+RECURSIVE HUnbound(_, _, _)
+HUnbound(f, s, X) ==
+    LET Y == X \cup {y \in SuccOf(f, X) : InH(s, y) /\ ~Rebinds(f, y, s.name)}
+    IN  IF Y = X THEN X ELSE HUnbound(f, s, Y)
+SeedArrivals(f, s) == SuccOf(f, HUnbound(f, s, {s.h}))
+SeedDeadNodes(f, s) ==
+    {y \in SeedArrivals(f, s) : InH(s, y)}
+    \cup UNION {Chain(f, s.name, y, {}) : y \in {z \in SeedArrivals(f, s) : ~InH(s, z)}}
+DeadBySeed(f) ==
+    UNION {{[name |-> s.name, line |-> FNodes[f][y].line] :
+               y \in {z \in SeedDeadNodes(f, s) : IsEv(f, z, "load", s.name)}} :
+           s \in {q \in FSeeds[f] : ~BindReaches(f, q.name, q.t)}}
+DeadLoads(f) == IF f \in FlowFuncs THEN DeadByKill(f) \cup DeadBySeed(f) ELSE {}
+LocalsResolve == phase = "called" => DeadLoads(cur) = {}
+
 GlobalsResolve == phase = "called" => BadLoads(cur) = {}
 ChainsResolve == phase = "called" => BadChains(cur) = {}
 ImportsSucceed == fail = NoFail
@@ -294,9 +358,9 @@ Emitted ==
     /\ Pristine => PrintT(ToJson([t |-> "ready", entries |-> entries, order |-> order,
                                   mods |-> [m \in Loaded |-> g[m]],
                                   missing |-> {[m |-> p[1], name |-> p[2]] : p \in MissingAll}]))
-    /\ (phase = "called" /\ (BadLoads(cur) # {} \/ BadChains(cur) # {})) =>
+    /\ (phase = "called" /\ (BadLoads(cur) # {} \/ BadChains(cur) # {} \/ DeadLoads(cur) # {})) =>
            PrintT(ToJson([t |-> "bad", entries |-> entries, f |-> cur, m |-> FMod[cur],
-                          loads |-> BadLoads(cur),
+                          loads |-> BadLoads(cur), locals |-> DeadLoads(cur),
                           chains |-> {[root |-> c.root, links |-> c.links, line |-> c.line,
                                        on |-> ChainRes(FMod[cur], c).on, attr |-> ChainRes(FMod[cur], c).attr]
                                       : c \in BadChains(cur)}]))
